@@ -30,9 +30,13 @@ const (
 	outOK = iota
 	outErr
 	outPanic
+	outPlanPanic // Plan() of the stage panics (planning runs in the parent's goroutine, before anything is submitted)
 )
 
-// Gen: a stage tree. Op{K:"stage", T:index, A:parent (-1 root), B:outcome, C:async(1)/inline(0) | work<<1}
+// Gen: a stage tree. Op{K:"stage", T:index, A:parent (-1 root), B:outcome, C:async(1)/inline(0) | work<<1,
+// S:"<shape><ops>:<pos>"}: the plan of the stage is a tree of real plan nodes - shape 'r' = the first operator is
+// the plan root and the others its children, 'e' = an empty root with all operators as children (the shape of
+// the shard scan and data load plans), 'c' = a chain; the outcome belongs to operator <pos>.
 func (H) Gen(prop string, rng *rand.Rand, tier string) *core.Plan {
 	p := &core.Plan{Harness: "pipe", Prop: "C19", Cfg: map[string]int{}}
 	p.Cfg["workers"] = 1 + rng.Intn(3)
@@ -66,13 +70,18 @@ func (H) Gen(prop string, rng *rand.Rand, tier string) *core.Plan {
 			out = outErr
 		} else if r < failP+panicP {
 			out = outPanic
+			if rng.Intn(3) == 0 {
+				out = outPlanPanic
+			}
 		}
 		async := 0
 		if rng.Intn(100) < asyncP {
 			async = 1
 		}
 		work := rng.Intn(4)
-		p.Ops = append(p.Ops, core.Op{K: "stage", T: i, A: int64(parent), B: int64(out), C: int64(async | work<<1)})
+		nops := 1 + rng.Intn(3)
+		shape := fmt.Sprintf("%c%d:%d", "rec"[rng.Intn(3)], nops, rng.Intn(nops))
+		p.Ops = append(p.Ops, core.Op{K: "stage", T: i, A: int64(parent), B: int64(out), C: int64(async | work<<1), S: shape})
 	}
 	return p
 }
@@ -83,23 +92,51 @@ type node struct {
 	outcome  int
 	async    bool
 	work     int
+	shape    byte // r, e, c
+	nops     int
+	pos      int
 	kids     []*node
 	started  int
 	finished int
 }
 
-type scriptPlan struct {
+// scriptOp is an operator of a stage's plan; the operator at the stage's position carries its outcome.
+type scriptOp struct {
 	n   *node
-	run func(n *node) error
+	i   int
+	run func(n *node, i int) error
 }
 
-func (s *scriptPlan) Execute() error { return s.run(s.n) }
-func (s *scriptPlan) ExecuteWithStats() (*commonmodels.OperatorStats, error) {
-	return nil, s.run(s.n)
+func (o *scriptOp) Identifier() string { return fmt.Sprintf("s%d.op%d", o.n.idx, o.i) }
+func (o *scriptOp) Execute() error     { return o.run(o.n, o.i) }
+
+// planOf builds the stage's plan out of lindb's real plan nodes.
+func planOf(n *node, run func(n *node, i int) error) stage.PlanNode {
+	ops := make([]stage.PlanNode, n.nops)
+	for i := range ops {
+		ops[i] = stage.NewPlanNode(&scriptOp{n: n, i: i, run: run})
+	}
+	switch n.shape {
+	case 'e':
+		root := stage.NewEmptyPlanNode()
+		for _, o := range ops {
+			root.AddChild(o)
+		}
+		return root
+	case 'c':
+		for i := 0; i+1 < len(ops); i++ {
+			ops[i].AddChild(ops[i+1])
+		}
+		return ops[0]
+	default:
+		for _, o := range ops[1:] {
+			ops[0].AddChild(o)
+		}
+		return ops[0]
+	}
 }
-func (s *scriptPlan) Children() []stage.PlanNode  { return nil }
-func (s *scriptPlan) AddChild(_ stage.PlanNode)   {}
-func (s *scriptPlan) IgnoreNotFound() bool        { return false }
+
+var _ = commonmodels.OperatorStats{}
 
 var poolSeq int
 
@@ -114,7 +151,17 @@ func (H) Run(c *core.RunCtx) {
 		if op.K != "stage" {
 			continue
 		}
-		n := &node{idx: len(nodes), parent: int(op.A), outcome: int(op.B), async: op.C&1 == 1, work: int(op.C >> 1)}
+		n := &node{idx: len(nodes), parent: int(op.A), outcome: int(op.B), async: op.C&1 == 1, work: int(op.C >> 1), shape: 'r', nops: 1}
+		if len(op.S) >= 4 {
+			fmt.Sscanf(op.S[1:], "%d:%d", &n.nops, &n.pos)
+			n.shape = op.S[0]
+			if n.nops < 1 || n.nops > 4 {
+				n.nops = 1
+			}
+			if n.pos < 0 || n.pos >= n.nops {
+				n.pos = 0
+			}
+		}
 		if n.parent >= n.idx || (n.idx == 0) {
 			n.parent = -1
 		}
@@ -140,7 +187,16 @@ func (H) Run(c *core.RunCtx) {
 	anyFailedStarted := false
 	anyPanic := false
 
-	run := func(n *node) error {
+	run := func(n *node, i int) error {
+		if i != n.pos {
+			// the other operators of the plan just run (those behind a failing one must not run, but that
+			// is not what this property is about)
+			simrt.Yield("stage-op")
+			return nil
+		}
+		if n.outcome == outPlanPanic {
+			return nil // the panic already happened in Plan()
+		}
 		n.started++
 		totalStarted++
 		sim.Event("stage %d start", n.idx)
@@ -176,7 +232,15 @@ func (H) Run(c *core.RunCtx) {
 		if !n.async {
 			p = nil
 		}
-		return stage.NewVerifStage(ctx, p, fmt.Sprintf("s%d", n.idx), &scriptPlan{n: n, run: run}, func() []stage.Stage {
+		return stage.NewVerifStage(ctx, p, fmt.Sprintf("s%d", n.idx), func() stage.PlanNode {
+			if n.outcome == outPlanPanic {
+				anyFailedStarted = true
+				anyPanic = true
+				sim.Event("stage %d plan panic", n.idx)
+				panic(fmt.Sprintf("planning stage %d panics", n.idx))
+			}
+			return planOf(n, run)
+		}, func() []stage.Stage {
 			var ks []stage.Stage
 			for _, k := range n.kids {
 				ks = append(ks, build(k))
